@@ -226,7 +226,14 @@ class RelayMode(vlib.Mode):
                     ref = f"c{k}"
                 else:
                     t = rng.choice(TOPICS[:3]); ref = rng.choice(["-", "x", f"c{ncodes + rng.randrange(3)}"])
-                case.append(f"ws {hx(tmpl.format(t=t))} {ref}")
+                meta = ""
+                if rng.random() < 0.25:     # client-controlled metadata of unusual size/content (reported verbatim by /status and the stats topic)
+                    ua = rng.choice(["Mozilla/5.0 (X11; Linux x86_64) " + "AppleWebKit/537.36 " * rng.choice([1, 12, 40]), "x" * rng.choice([255, 256, 257, 1000, 4000]),
+                                     "ua with \"quotes\" and \\ backslash", "tab\there", "ü-agent/1.0", " lead and trail ", "a"])
+                    meta = " " + hx(ua)
+                    if rng.random() < 0.5:
+                        meta += " " + hx(rng.choice([", ".join(f"10.{i}.{i * 7 % 250}.{i * 13 % 250}" for i in range(rng.choice([2, 20, 60]))), "::1", "unknown", "1.2.3.4, evil\"quote"]))
+                case.append(f"ws {hx(tmpl.format(t=t))} {ref}{meta}")
                 if ref.startswith("c") and tmpl == WS_PATHS[0][0]: st["joined"] = st.get("joined", 0) + 1
             elif r < 0.62:    # traffic
                 nj = st.get("joined", 0)
@@ -372,6 +379,13 @@ class RelayMode(vlib.Mode):
                                       ",".join(sorted({hx(x) for x in c["scopes"]})) + f":{c['exp']}" for c in conns if c["member"]])
                         if got != exp:
                             F.append(("C14", "status-not-membership", f"status lists {got}, joined are {exp}")); break
+                        # client-controlled metadata is reported verbatim, whatever its size or content
+                        meta_got = sorted((e.split(":")[3], e.split(":")[4]) for e in o.split("conns=")[1].split("|") if e and e.split(":")[3] != hx("crossbar"))
+                        meta_exp = sorted((c["ua"], c["xff"]) for c in conns if c["member"])
+                        if meta_got != meta_exp:
+                            bad = [m for m in meta_got if m not in meta_exp][:1] + [m for m in meta_exp if m not in meta_got][:1]
+                            F.append(("C14", "status-metadata-not-verbatim", "status reports user agent / forwarded address " +
+                                      " vs sent ".join(f"({len(unhx(a))} B {unhx(a)[:40]!r}, {len(unhx(b))} B {unhx(b)[:40]!r})" for a, b in bad))); break
             elif op == "ws":
                 path = unhx(f[1]).decode()
                 ref = f[2]
@@ -395,7 +409,8 @@ class RelayMode(vlib.Mode):
                     if (d["r"] == "t") != r_ or (d["w"] == "t") != w_:
                         F.append(("C04", "capabilities-not-from-scopes", f"scopes {c['scopes']} gave read={d['r']} write={d['w']}")); break
                     c["used"] = True
-                    conns.append(dict(topic=topic, r=r_, w=w_, bid=c["bid"], exp=c["exp"], member=True, scopes=c["scopes"]))
+                    conns.append(dict(topic=topic, r=r_, w=w_, bid=c["bid"], exp=c["exp"], member=True, scopes=c["scopes"],
+                                      ua=(f[3] if len(f) > 3 else hx(f"ua{len(conns)}")), xff=(f[4] if len(f) > 4 else hx(f"10.9.8.{len(conns) % 250}"))))
                 else:
                     stats["ws_refused"] += 1
                     if c is not None and o == "refused": c["used"] = True   # the code is consumed by the attempt
